@@ -707,29 +707,41 @@ func runTsRun(tier string, seed int64, model string, replay string) *corr.Result
 	rerun := make([]*obs, len(cases)) // c16: second run without UpdateScripts, on the updated file
 	var wg sync.WaitGroup
 	sem := make(chan struct{}, runtime.NumCPU())
+	// Scripts of the oracle-only corpus write an executable file and exec it straight away.  In a process that
+	// forks from other goroutines at the same time, the exec can fail with ETXTBSY (a child forked in between
+	// still holds the write descriptor: golang.org/issue/22315) — a property of fork/exec under concurrency,
+	// not of the script loop.  Those cases are therefore run one at a time after the parallel batch.
+	var serial []int
+	runCase := func(i int) {
+		c := cases[i]
+		impl[i] = r.runReal(c.fl, c.file)
+		cliExit[i] = -100
+		if c.fl.cliable() {
+			code, after, out := r.runCLI(c.fl, [][]byte{c.file})
+			cliExit[i], cliFile[i], cliOut[i] = code, after[0], out
+		}
+		if c.fl.update {
+			fl2 := c.fl
+			fl2.update = false
+			o0 := r.runReal(fl2, c.file)
+			plain[i] = &o0
+			if c.kind == "c16" {
+				o2 := r.runReal(fl2, impl[i].file)
+				rerun[i] = &o2
+			}
+		}
+	}
 	for i := range cases {
+		if cases[i].fl.oracleOnly {
+			serial = append(serial, i)
+			continue
+		}
 		wg.Add(1)
 		sem <- struct{}{}
 		go func(i int) {
 			defer wg.Done()
 			defer func() { <-sem }()
-			c := cases[i]
-			impl[i] = r.runReal(c.fl, c.file)
-			cliExit[i] = -100
-			if c.fl.cliable() {
-				code, after, out := r.runCLI(c.fl, [][]byte{c.file})
-				cliExit[i], cliFile[i], cliOut[i] = code, after[0], out
-			}
-			if c.fl.update {
-				fl2 := c.fl
-				fl2.update = false
-				o0 := r.runReal(fl2, c.file)
-				plain[i] = &o0
-				if c.kind == "c16" {
-					o2 := r.runReal(fl2, impl[i].file)
-					rerun[i] = &o2
-				}
-			}
+			runCase(i)
 		}(i)
 	}
 	for _, g := range groups {
@@ -742,6 +754,9 @@ func runTsRun(tier string, seed int64, model string, replay string) *corr.Result
 		}(g)
 	}
 	wg.Wait()
+	for _, i := range serial {
+		runCase(i)
+	}
 
 	// ---- compare.  Attribution: what goes wrong without UpdateScripts as well is a matter of the
 	// script loop (C01); what goes wrong only under UpdateScripts is a matter of C16.
